@@ -737,7 +737,7 @@ func checkFlagLetters(p *Prog, r *Report) {
 			if !ok || !isLetterWrite(&c.Call) {
 				continue
 			}
-			ru, _ := constInt(c.Call.Args[1])
+			ru, _ := letterOf(&c.Call)
 			guard := "?"
 			if len(b.Preds) == 1 {
 				pb := b.Preds[0]
@@ -1023,9 +1023,22 @@ func indexOfPortElem(v ssa.Value) ssa.Value {
 
 // isLetterWrite: one constant letter appended to a strings.Builder (WriteRune or WriteByte).
 func isLetterWrite(c *ssa.CallCommon) bool {
+	_, ok := letterOf(c)
+	return ok
+}
+
+// letterOf: the constant letter a call appends (strings.Builder.WriteRune / WriteByte, or append(buf, 'x')).
+func letterOf(c *ssa.CallCommon) (int64, bool) {
 	switch calleeFull(c) {
 	case "(*strings.Builder).WriteRune", "(*strings.Builder).WriteByte":
-		return true
+		return constInt(c.Args[1])
 	}
-	return false
+	if bi, ok := c.Value.(*ssa.Builtin); ok && bi.Name() == "append" && len(c.Args) == 2 {
+		if _, isByte := c.Args[0].Type().Underlying().(*types.Slice); isByte {
+			if elems, okv := VariadicElems(c.Args[1]); okv && len(elems) == 1 {
+				return constInt(elems[0])
+			}
+		}
+	}
+	return 0, false
 }
